@@ -526,6 +526,9 @@ type lockCall struct {
 	ids   []int // writetx / snapshot transaction ids
 	node  int
 	line  string
+	// race only: transactions whose body a concurrent WriteTransaction of the same race stored
+	// (it may legitimately land after the prune when its own inputs are still locked by it)
+	rewrote map[string]bool
 }
 
 // runLockCall runs a prepared call; Badger's optimistic conflicts (WriteTransaction and
@@ -697,7 +700,7 @@ func (w *lockWorld) lockProperty(call *lockCall, res string, pre, post []string,
 		if _, fin := pm["F"+h]; fin {
 			fail("C03:finalized-displaced", slot+" held by finalized transaction "+h+" changed holder")
 		}
-		if _, body := qm["T"+h]; body {
+		if _, body := qm["T"+h]; body && !call.rewrote[h] {
 			fail("C03:takeover-body-kept", slot+" taken from "+h+" but its TRANSACTION record is still stored")
 		}
 		if !call.fork {
@@ -959,7 +962,17 @@ func (w *lockWorld) execVout(f []string) Result {
 // the final dump go to the Lean driver (LeanIn), which searches a sequential order of the atomic
 // model calls that explains them. Property mode checks the per-slot statements directly.
 func (w *lockWorld) execRace(line string) Result {
-	segs := strings.Split(line, " ; ")
+	// a replayed case carries the observed form (`call => res`, `final dump`): strip it
+	var segs []string
+	for _, sg := range strings.Split(line, " ; ") {
+		if strings.HasPrefix(sg, "final ") || sg == "final" {
+			continue
+		}
+		if i := strings.Index(sg, " => "); i >= 0 {
+			sg = sg[:i]
+		}
+		segs = append(segs, sg)
+	}
 	head := strings.Fields(segs[0])
 	if len(head) != 2 || head[0] != "race" {
 		return Result{Out: "bad-op"}
@@ -1028,7 +1041,13 @@ func (w *lockWorld) execRace(line string) Result {
 		obs = append(obs, ln+" => "+results[i])
 	}
 	leanIn := fmt.Sprintf("race %d ; %s ; final %s", n, strings.Join(obs, " ; "), joinDump(post))
-	key, desc, _, _ := w.lockProperty(&lockCall{kind: "race", fork: anyFork}, "ok", pre, post, badPayload)
+	rewrote := map[string]bool{}
+	for i, c := range calls {
+		if c.kind == "writetx" && results[i] == "ok" {
+			rewrote[strconv.Itoa(c.ids[0])] = true
+		}
+	}
+	key, desc, _, _ := w.lockProperty(&lockCall{kind: "race", fork: anyFork, rewrote: rewrote}, "ok", pre, post, badPayload)
 	fail := func(k, d string) {
 		if key == "" {
 			key, desc = k, d
@@ -1536,6 +1555,11 @@ func init() {
 			"race 3 ; lockghost 20 0 1 5 ; lockghost 21 0 1 5 ; lockghost 101 1 1 5",
 			"race 3 ; lockdep 1 20 0 ; lockdep 1 21 0 ; lockdep 1 22 1",
 			"fulldump",
+		}, { // a body written concurrently with the takeover that prunes it may land after the prune
+			"reset", "exceptions", "deftx 1 1 0 0 0 2 1 2 0", "writetx 1", "snapshot 1 1 1",
+			"deftx 2 1 3 1 0 2 0 0", "deftx 6 1 3 1 1 2 1 4 2 3 5",
+			"lockutxos 2 0 1 1 0", "writetx 2", "lockutxos 2 0 1 1 1",
+			"race 2 ; lockutxos 6 1 1 1 1 ; writetx 2", "fulldump",
 		}},
 	})
 }
